@@ -35,10 +35,11 @@ import (
 )
 
 type Reader struct {
-	reader    io.Reader
-	buffer    []byte
-	bytesRead uint64
-	config    *configuration.Configuration
+	reader     io.Reader
+	buffer     []byte
+	bytesRead  uint64
+	pendingErr error
+	config     *configuration.Configuration
 }
 
 func NewReader(config *configuration.Configuration) *Reader {
@@ -55,21 +56,41 @@ func (_this *Reader) Init(config *configuration.Configuration) {
 func (_this *Reader) SetReader(reader io.Reader) {
 	_this.reader = reader
 	_this.bytesRead = 0
+	_this.pendingErr = nil
 }
 
 // Read implements io.Reader on top of the current source so that the bytes
 // consumed by the external field decoders count toward the document size too.
+//
+// It also normalizes what the io.Reader contract allows a source to do: a read
+// that returns no data and no error is retried, and an error that arrives
+// together with data is reported by the next call instead, so callers only
+// ever see (n > 0, nil) or (0, err).
 func (_this *Reader) Read(p []byte) (n int, err error) {
-	n, err = _this.reader.Read(p)
-	_this.markBytesRead(n)
-	return
+	if len(p) == 0 {
+		return 0, nil
+	}
+	if _this.pendingErr != nil {
+		return 0, _this.pendingErr
+	}
+	for {
+		n, err = _this.reader.Read(p)
+		if n > 0 {
+			_this.markBytesRead(n)
+			_this.pendingErr = err
+			return n, nil
+		}
+		if err != nil {
+			_this.pendingErr = err
+			return 0, err
+		}
+	}
 }
 
 func (_this *Reader) ReadUint8() uint8 {
-	if _, err := _this.reader.Read(_this.buffer[:1]); err != nil {
+	if _, err := _this.Read(_this.buffer[:1]); err != nil {
 		_this.unexpectedError(err)
 	}
-	_this.markBytesRead(1)
 	return _this.buffer[0]
 }
 
@@ -94,14 +115,13 @@ func (_this *Reader) ReadVersion() uint64 {
 }
 
 func (_this *Reader) ReadTypeOrEOF() cbeTypeField {
-	if _, err := _this.reader.Read(_this.buffer[:1]); err != nil {
+	if _, err := _this.Read(_this.buffer[:1]); err != nil {
 		if err == io.EOF {
 			return cbeTypeEOF
 		}
 		_this.unexpectedError(err)
 	}
 
-	_this.markBytesRead(1)
 	return cbeTypeField(_this.buffer[0])
 }
 
@@ -241,10 +261,9 @@ func (_this *Reader) readIntoBuffer(count int) {
 	_this.expandBufferTo(count)
 	dst := _this.buffer[:count]
 	for len(dst) > 0 {
-		if bytesRead, err := _this.reader.Read(dst); err != nil {
+		if bytesRead, err := _this.Read(dst); err != nil {
 			_this.unexpectedError(err)
 		} else {
-			_this.markBytesRead(bytesRead)
 			dst = dst[bytesRead:]
 		}
 	}
